@@ -119,7 +119,17 @@ def cls_odd_layout(case):
     return False
 
 
+def cls_data_label_offset(case):
+    """KF-B2 (-c): the failing line is a data directive (pack / db / dh / dw / dd) whose value is a distance to a label
+    (%offset): the distance changes with the layout, so a range check on it can flip"""
+    if not case.get('compress', True):
+        return False
+    line = _failing_line(case)
+    return _head(line) in ('pack', 'db', 'dh', 'dw', 'dd') and '%offset' in line
+
+
 CLASSES = {
+    'data-label-offset': cls_data_label_offset,
     'odd-layout': cls_odd_layout,
     'program-label-imm': cls_program_label_imm,
     'li-offset': cls_li_offset,
